@@ -1245,8 +1245,11 @@ class CSSMatch(_DocumentNav):
             parent = self.get_parent(parent, no_iframe=self.is_html)
 
             if parent is None:
-                root = last
-                has_html_namespace = self.has_html_ns(root)
+                # The walk ended at the `BeautifulSoup` object: keep the document's root element,
+                # otherwise it ended below an `iframe` (or at the top of a detached tree).
+                if not self.is_doc(last):
+                    root = last
+                    has_html_namespace = self.has_html_ns(root)
                 parent = last
                 break
 
